@@ -2,6 +2,7 @@ package props
 
 import (
 	"fmt"
+	"regexp"
 	"strings"
 	"testing"
 
@@ -33,6 +34,8 @@ func libTokens(toks []etok) []*tokenizers.Token {
 			out = append(out, tokenizers.NewToken(tokenizers.Float, t.S, 1, i+1))
 		case t.K == "c":
 			out = append(out, tokenizers.NewToken(tokenizers.Integer, t.S, 1, i+1))
+		case t.K == "e":
+			out = append(out, tokenizers.NewToken(tokenizers.Eof, "", 1, i+1))
 		case t.K == "i":
 			out = append(out, tokenizers.NewToken(tokenizers.Word, identName(t.S), 1, i+1))
 		case wordy(t):
@@ -114,6 +117,17 @@ func checkC02With(p *cparsers.ExpressionParser, c c02Case) *evid.Fail {
 		if ae.Code == "" {
 			return evid.F("reject-without-code", "input %q rejected without an error code: %v", src, err)
 		}
+		// the position quoted in the message points at the offending token (C12's last sentence): with single
+		// blanks between tokens on one line the column of token k is known
+		if m := errPosRe.FindStringSubmatch(ae.Message); m != nil && !c.ViaToken && failAt < len(c.Toks) && !hasJunk(c.Toks) {
+			col := 1
+			for _, t := range c.Toks[:failAt] {
+				col += len([]rune(t.S)) + 1
+			}
+			if m[1] != "1" || m[2] != fmt.Sprint(col) {
+				return evid.F("error-position:"+ae.Code, "input %q: the error %q quotes %s:%s, the offending token #%d %q is at 1:%d", src, ae.Message, m[1], m[2], failAt, c.Toks[failAt].S, col)
+			}
+		}
 		return nil
 	}
 	if err != nil {
@@ -129,6 +143,22 @@ func checkC02With(p *cparsers.ExpressionParser, c c02Case) *evid.Fail {
 		return evid.F("wrong-post-order", "input %q compiled to %v, the syntax tree's post-order is %v", src, got, want)
 	}
 	return nil
+}
+
+var errPosRe = regexp.MustCompile(`at line (\d+) and column (\d+)`)
+
+// hasJunk: sequences with characters outside the language are rejected by the lexical pass, which may quote a
+// later position than the first syntactic offender; they are left out of the position check.
+func hasJunk(toks []etok) bool {
+	for _, t := range toks {
+		if t.K == "o" {
+			switch t.S {
+			case "😀", "@", "$", "\uffff", "𝑥", "#":
+				return true
+			}
+		}
+	}
+	return false
 }
 
 func init() { regReplay("C02", checkC02) }
@@ -266,6 +296,11 @@ func TestC02_RapidMutation(t *testing.T) {
 			rt.Skip("empty")
 		}
 		c := c02Case{toks, rapid.IntRange(0, 3).Draw(rt, "via") == 0}
+		if c.ViaToken && rapid.IntRange(0, 3).Draw(rt, "eof") == 0 {
+			at := rapid.IntRange(0, len(toks)).Draw(rt, "eofat")
+			toks = append(append(append([]etok{}, toks[:at]...), etok{"e", ""}), toks[at:]...)
+			c.Toks = toks
+		}
 		nt, lab := c02Classify(toks)
 		labels := []string{lab, fmt.Sprintf("mutations:%d", len(muts))}
 		for _, m := range muts {
